@@ -522,6 +522,8 @@ def wf_case(c):
         if not s["pk"]:
             return "no packets"
         t = [a * 10 ** 9 + b for a, b, _, _ in s["pk"]]
+        if any(a < 0 or not (0 <= b < 10 ** 9) for a, b, _, _ in s["pk"]) or t[-1] >= 1 << 63:
+            return "time outside 1970..2262"
         rel = [(x - t[0]) // 1000 for x in t]
         for i in range(1, len(t)):
             if t[i] < t[i - 1] or rel[i] - rel[i - 1] >= U32:
